@@ -1,5 +1,5 @@
 (* C03, consequence clause: "so every CPU-pinned container always has a non-empty allowed CPU set".
-   Proved part: containers with exclusive CPUs or a positive shared portion, on guarded runs.
+   Proved part: containers with exclusive CPUs or a positive shared portion, for every history.
    The zero-request case is refuted (known finding K10). *)
 From Coq Require Import ZArith List Lia.
 From stdpp Require Import gmap sets.
@@ -79,6 +79,16 @@ Proof.
   - apply bool_decide_eq_false in He. destruct (0 <? g_portion g); set_solver.
 Qed.
 
+(* ... and, since allocation and reinstatement carry the tests themselves, for every history *)
+Theorem told_nonempty_all os s cid g :
+  tree_wfb2 t = true -> forallb nonneg_reserve os = true -> run t (init t) os = Ok s ->
+  grants s !! cid = Some g -> g_type g = CpuNormal -> (g_pool g < length t)%nat ->
+  g_excl g <> ∅ \/ 0 < g_portion g -> told_cpus t s g <> ∅.
+Proof.
+  intros Hwf Hnr Hrun. apply (told_nonempty os s cid g Hwf).
+  exact (run_all_guarded t os (init t) s (tree_wfb2_sound t Hwf) (J_init t) Hnr Hrun).
+Qed.
+
 End ne.
 
 (* K10: the zero-request case is still false of the faithful model.  Reinstatement now refuses the history that
@@ -101,8 +111,8 @@ Definition k10a_ops : list op :=
   [ OAlloc 1 {| r_full := 2; r_fraction := 0; r_isolate := false; r_type := CpuNormal |} 1 (list_to_set [4%nat; 5%nat]);
     OAlloc 6 {| r_full := 0; r_fraction := 0; r_isolate := false; r_type := CpuNormal |} 0 ∅ ].
 Lemma nonempty_refuted :
-  tree_wfb2 k10a_tree = true /\
-  match run_g k10a_tree (init k10a_tree) k10a_ops with
+  tree_wfb2 k10a_tree = true /\ forallb nonneg_reserve k10a_ops = true /\
+  match run k10a_tree (init k10a_tree) k10a_ops with
   | Ok s => bool_decide (told_cpus k10a_tree s {| g_pool := 0; g_excl := ∅; g_type := CpuNormal; g_portion := 0 |} = ∅) = true
   | Err _ => False end.
-Proof. vm_compute. split; reflexivity. Qed.
+Proof. vm_compute. repeat split; reflexivity. Qed.
